@@ -41,6 +41,12 @@ def drive(ctx):
                 elif n % 3 == 1:
                     y = dict(y, z={"n": "", "fo": rnd.choice(FIXED_OFFSETS)}, zk="fixed")
                 ctx.emit("native_cmp", {"share": n % 3 == 2}, [x, y])
+    # instants within hours of the Unix epoch with awkward microseconds (float timestamps round there), in UTC and in zones
+    if ctx.i == 0:
+        for w in ([1969, 12, 31, 23, 59, 59, 999999], [1970, 1, 1, 0, 0, 0, 1], [1969, 12, 31, 22, 0, 0, 700001], [1970, 1, 1, 1, 59, 59, 999999],
+                  [1969, 12, 31, 23, 59, 58, 123457], [1970, 1, 1, 0, 0, 1, 300000], [1969, 12, 31, 12, 0, 0, 5]):
+            for z in (UTCZ, {"n": "Europe/Paris", "fo": 0}, {"n": "America/New_York", "fo": 0}, {"n": "", "fo": -1800}):
+                ctx.emit("native_acc", {}, [mk_dt(z, w, 0)])
     for k in range(150 if q else 3000):
         s = rnd.randrange(LO, HI)
         w = i3_to_wall(sec_to_i3(s, rnd.choice((0, 1, 999999, rnd.randrange(1000000)))))
